@@ -196,6 +196,27 @@ fn logic_operand_not_boolean(e: &E, p: &[Q]) -> bool {
     found
 }
 
+/// true when some logic operand evaluates to a non-zero value below 1e-9 in magnitude.
+fn logic_operand_rounding_residue(e: &E, p: &[Q]) -> bool {
+    let mut found = false;
+    e.visit(&mut |x| {
+        let ops: Vec<&E> = match x {
+            E::And(xs) | E::Or(xs) => xs.iter().collect(),
+            E::Not(a) => vec![a],
+            E::Xor(a, c) | E::Implies(a, c) | E::Iff(a, c) => vec![a, c],
+            _ => vec![],
+        };
+        for o in ops {
+            if let Ok(v) = o.eval(p) {
+                if !v.is_zero() && v.abs() < pow10_neg(9) {
+                    found = true;
+                }
+            }
+        }
+    });
+    found
+}
+
 fn rewrite_class(orig: &Exp) -> &'static str {
     // the rule family a failing rewrite most plausibly comes from: key for known findings
     fn has(e: &Exp, f: &dyn Fn(&Exp) -> bool) -> bool {
@@ -234,6 +255,11 @@ pub fn check_rewrites(e: &Exp, names: &[String], pts: &[Vec<Q>]) -> Result<u64, 
             match (orig.eval(p), rw.eval(p)) {
                 (Ok(a), Ok(b_)) => {
                     if !values_agree(&a, &b_) {
+                        if logic_operand_rounding_residue(&orig, p) || logic_operand_rounding_residue(&rw, p) {
+                            // 1/3 folded to 0.3333333333333333 leaves -1.85e-17 under exact evaluation where
+                            // float evaluation gives exactly 0: the truth value of such an operand is not decidable
+                            continue;
+                        }
                         if logic_operand_not_boolean(&orig, p) {
                             return Err((
                                 "logic-identity-rule-applied-to-non-0/1-operand".into(),
@@ -319,6 +345,8 @@ fn respell(e: &E, rng: &mut ChaCha8Rng, how: usize) -> E {
                         4 => E::mul(E::add(E::Num(k / 2.0), E::Num(k / 2.0)), o),              // (c/2 + c/2) * x
                         5 if k != 0.0 && (1.0 / k) * k == 1.0 && 1.0 / (1.0 / k) == k => E::div(o, E::Num(1.0 / k)), // x / (1/c)
                         6 => E::mul(E::mul(E::Num(1.0), kk), o),                               // 1 * c * x
+                        7 => E::Neg(b(E::mul(E::Num(-k), o))),                                 // -((-c) * x)
+                        8 if k == -1.0 => E::Neg(b(o)),                                        // -(x) for c = -1
                         _ => E::mul(kk, o),
                     }
                 }
@@ -342,7 +370,7 @@ fn respell(e: &E, rng: &mut ChaCha8Rng, how: usize) -> E {
     }
 }
 
-const SPELLINGS: [&str; 7] = ["c*x", "x*c", "-(-c)*x", "(0-(-c))*x", "(c/2+c/2)*x", "x/(1/c)", "1*c*x"];
+const SPELLINGS: [&str; 9] = ["c*x", "x*c", "-(-c)*x", "(0-(-c))*x", "(c/2+c/2)*x", "x/(1/c)", "1*c*x", "-((-c)*x)", "-(x) for c=-1"];
 
 fn respell_model(m: &M, rng: &mut ChaCha8Rng, how: usize) -> M {
     let mut t = m.clone();
@@ -512,7 +540,7 @@ impl Driver for C10 {
     }
     fn units(&self, tier: Tier) -> usize {
         // units 0..EXH are the exhaustive part, the rest random trees and spelling twins
-        tier.pick(400, 20000)
+        tier.pick(1000, 20000)
     }
     fn exhaustive(&self, _tier: Tier) -> bool {
         false
@@ -573,7 +601,17 @@ impl Driver for C10 {
             } else {
                 // spelling twins
                 let stratum = STRATA[rng.gen_range(0..STRATA.len())];
-                let m = gen_model(&mut rng, stratum);
+                let mut m = gen_model(&mut rng, stratum);
+                if rng.gen_bool(0.2) {
+                    // a product over a sum that carries a constant: c * (x - k) rel r
+                    let nums: Vec<usize> = (0..m.n()).filter(|i| !matches!(m.types[*i], VT::Bool)).collect();
+                    if let Some(&i) = nums.first() {
+                        let c = [-1.0, -2.0, 2.0][rng.gen_range(0..3)];
+                        let k = [3.0, 1.0, 0.5][rng.gen_range(0..3)];
+                        let cmp = if rng.gen_bool(0.5) { Cmp::Ge } else { Cmp::Le };
+                        m.cons.push(Con { name: None, kind: CKind::Cmp(E::mul(E::Num(c), E::sub(E::Var(i), E::Num(k))), cmp, E::Num(-2.0)) });
+                    }
+                }
                 let how_a = rng.gen_range(0..SPELLINGS.len());
                 let how_b = rng.gen_range(0..SPELLINGS.len());
                 let mut prng = unit_rng(ctx, "C10p", out.unit * 100 + case);
@@ -622,7 +660,7 @@ impl Driver for C10 {
         }
     }
     fn rule(&self) -> String {
-        "(a) Exp::simplify, Exp::flatten and flatten().simplify() on every expression tree with <= 2 operators over leaves {x, y, 0, 1, -0.0, 2, 0.5, 3} and operators neg, abs, not (both forms), + - * /, min, max, and/or (n-ary and BinOp forms), xor, implies, iff (units 0..99 sweep this finite set completely at every run), plus random trees of depth <= 4 with 1..3-ary and/or/min/max; each is evaluated exactly at the 16 assignments x,y in {0,1,2,-3/2}: defined values must be preserved, a defined expression must stay defined, a division by zero must not disappear, simplify must be idempotent. (b) G-model models whose literal products c*e are re-spelled as c*x, x*c, -(-c)*x, (0-(-c))*x, (c/2+c/2)*x, x/(1/c), 1*c*x: both twins are compiled; they must be accepted or rejected alike (same error kind) and, when accepted, accept the same assignments with the same best objective on the C01 point sets. (c) a coefficient computed in the where-section from integer and decimal literals (a - b, a + b, a * b, a / d, (a - b) * d, -a + b, a - b - d, optionally through a second constant), the same value written as a literal, and the same expression written inline must give the same coefficients (1e-12). non-trivial = expression with at least one decided assignment / twin pair with >= 3 decided assignments".into()
+        "(a) Exp::simplify, Exp::flatten and flatten().simplify() on every expression tree with <= 2 operators over leaves {x, y, 0, 1, -0.0, 2, 0.5, 3} and operators neg, abs, not (both forms), + - * /, min, max, and/or (n-ary and BinOp forms), xor, implies, iff (units 0..99 sweep this finite set completely at every run), plus random trees of depth <= 4 with 1..3-ary and/or/min/max; each is evaluated exactly at the 16 assignments x,y in {0,1,2,-3/2}: defined values must be preserved, a defined expression must stay defined, a division by zero must not disappear, simplify must be idempotent. (b) G-model models whose literal products c*e are re-spelled as c*x, x*c, -(-c)*x, (0-(-c))*x, (c/2+c/2)*x, x/(1/c), 1*c*x, -((-c)*x), -(x) for c = -1 (one model in five gets an extra row c*(x - k) rel r with c in {-1, -2, 2} so that products over sums with a constant occur): both twins are compiled; they must be accepted or rejected alike (same error kind) and, when accepted, accept the same assignments with the same best objective on the C01 point sets. (c) a coefficient computed in the where-section from integer and decimal literals (a - b, a + b, a * b, a / d, (a - b) * d, -a + b, a - b - d, optionally through a second constant), the same value written as a literal, and the same expression written inline must give the same coefficients (1e-12). non-trivial = expression with at least one decided assignment / twin pair with >= 3 decided assignments".into()
     }
     fn thresholds(&self, tier: Tier) -> Thresholds {
         let s = tier.pick(1, 10);
